@@ -152,6 +152,8 @@ type writeRec struct {
 	SubHi  string
 	Guard  string
 	What   string
+	Block  any // *ssa.BasicBlock in which the write happens
+	Frame  any // *Frame
 }
 
 func (e *Enc) noteWrite(w writeRec) {
@@ -256,6 +258,109 @@ func (o *ObjTypes) scalarSliceFact(elem types.Type, ref string) string {
 		o.memo[key] = tmpl
 	}
 	return strings.ReplaceAll(tmpl, "@", ref)
+}
+
+// ifaceFact: the object an interface value of a repository interface type I
+// refers to cannot be an object of a repository struct type S none of whose
+// parts implements I (the dynamic type of the value implements I, and the
+// object holding the value's referent contains a value of that type).
+func (o *ObjTypes) ifaceFact(t types.Type, ref string) string {
+	named, ok := t.(*types.Named)
+	if !ok || named.Obj().Pkg() == nil || !strings.HasPrefix(named.Obj().Pkg().Path(), modPath) {
+		return ""
+	}
+	it, ok := t.Underlying().(*types.Interface)
+	if !ok || it.NumMethods() == 0 {
+		return ""
+	}
+	key := "iface:" + types.TypeString(t, nil)
+	if o.memo == nil {
+		o.memo = map[string]string{}
+	}
+	tmpl, ok := o.memo[key]
+	if !ok {
+		var cs []string
+		for i, st := range o.structs {
+			if !partImplements(st, it, 0) {
+				cs = append(cs, not(eq("(objtype @)", fmt.Sprint(100000+i))))
+			}
+		}
+		for i, e := range o.elems {
+			if e != nil && !partImplements(e, it, 0) {
+				cs = append(cs, not(eq("(objtype @)", fmt.Sprint(1000+i))))
+			}
+		}
+		// an interface whose methods mention types of the repository can only
+		// be implemented by types of the repository: the object is one of
+		// the listed struct or array allocations (or nil)
+		if mentionsRepoType(it) {
+			cs = append(cs, or(eq("@", "0"), "(>= (objtype @) 1000)"))
+		}
+		tmpl = and(cs...)
+		o.memo[key] = tmpl
+	}
+	if tmpl == "true" {
+		return ""
+	}
+	return strings.ReplaceAll(tmpl, "@", ref)
+}
+
+func mentionsRepoType(it *types.Interface) bool {
+	var walk func(t types.Type, d int) bool
+	walk = func(t types.Type, d int) bool {
+		if d > 4 {
+			return false
+		}
+		switch u := t.(type) {
+		case *types.Named:
+			if u.Obj().Pkg() != nil && strings.HasPrefix(u.Obj().Pkg().Path(), modPath) {
+				return true
+			}
+		case *types.Pointer:
+			return walk(u.Elem(), d+1)
+		case *types.Slice:
+			return walk(u.Elem(), d+1)
+		case *types.Map:
+			return walk(u.Key(), d+1) || walk(u.Elem(), d+1)
+		}
+		return false
+	}
+	for i := 0; i < it.NumMethods(); i++ {
+		sig := it.Method(i).Type().(*types.Signature)
+		for j := 0; j < sig.Params().Len(); j++ {
+			if walk(sig.Params().At(j).Type(), 0) {
+				return true
+			}
+		}
+		for j := 0; j < sig.Results().Len(); j++ {
+			if walk(sig.Results().At(j).Type(), 0) {
+				return true
+			}
+		}
+	}
+	return false
+}
+
+// partImplements: some value contained in a T (T itself included) has a type
+// whose value or pointer implements the interface.
+func partImplements(t types.Type, it *types.Interface, depth int) bool {
+	if depth > 8 {
+		return true
+	}
+	if types.Implements(t, it) || types.Implements(types.NewPointer(t), it) {
+		return true
+	}
+	switch u := t.Underlying().(type) {
+	case *types.Struct:
+		for i := 0; i < u.NumFields(); i++ {
+			if partImplements(u.Field(i).Type(), it, depth+1) {
+				return true
+			}
+		}
+	case *types.Array:
+		return partImplements(u.Elem(), it, depth+1)
+	}
+	return false
 }
 
 func containsArrayOf(outer, elem types.Type, depth int) bool {
@@ -600,6 +705,11 @@ func (e *Enc) wfInto(s *State, t types.Type, L []string, fs *[]string, depth int
 		return 1
 	case *types.Interface:
 		*fs = append(*fs, "(<= 0 "+L[0]+")", "(<= 0 "+L[1]+")", "(< "+L[1]+" "+s.alloc+")")
+		if e.objTypes != nil {
+			if fact := e.objTypes.ifaceFact(t, L[1]); fact != "" {
+				*fs = append(*fs, fact)
+			}
+		}
 		return 4
 	case *types.Struct:
 		n := 0
